@@ -70,6 +70,10 @@ def check(prog, run):
     for method in ("cov_mm", "dat"):
         cfg = f"method={method}"
         hs, it = analyse(prog, fi, method, pY, pR, pbr, pm)
+        for enode, etxt in it.errors:
+            ob("R-lag", "structure: block rows keep the channel order", False, f"{cfg}: {etxt}", witness=etxt[:80], node=enode, config=cfg)
+        if it.errors:
+            continue
         if len(hs) != 1:
             ob("R-lag", "structure", None, f"{cfg}: {len(hs)} different returned matrices", config=cfg)
             continue
